@@ -91,6 +91,7 @@ func (r ownRev) String() string {
 type ownCase struct {
 	Policy    string
 	Limit     int32
+	SelBoth   bool // the selector has labels and an expression; a non-matching pod fails only the expression
 	Settled   bool // status counters are an exact census already (the reconcile has no status to write)
 	ScaleIn   bool // spec.replicas is 2: the pod at ordinal 2 is condemned (and a pinned pod is the one at ordinal 0)
 	Pods      [3]ownPod
@@ -105,7 +106,7 @@ type ownCase struct {
 }
 
 func (c ownCase) String() string {
-	return fmt.Sprintf("%s lim=%d settledStatus=%v scaleIn=%v pods=%v revs=%v equalnums=%v reversed=%v pinB=%v pinTerminating=%v allAtB=%v api=%s paused=%v", c.Policy, c.Limit, c.Settled, c.ScaleIn, c.Pods, c.Revs, c.EqualNums, c.Reversed, c.PinB, c.PinTerm, c.AllAtB, c.API, c.Paused)
+	return fmt.Sprintf("%s lim=%d selectorLabelsAndExpression=%v settledStatus=%v scaleIn=%v pods=%v revs=%v equalnums=%v reversed=%v pinB=%v pinTerminating=%v allAtB=%v api=%s paused=%v", c.Policy, c.Limit, c.SelBoth, c.Settled, c.ScaleIn, c.Pods, c.Revs, c.EqualNums, c.Reversed, c.PinB, c.PinTerm, c.AllAtB, c.API, c.Paused)
 }
 
 func podNameFor(shape string, i int) string {
@@ -160,7 +161,7 @@ func (c ownCase) Build(w *world.World) *world.State {
 	if c.ScaleIn {
 		replicas = 2
 	}
-	sp := gen.Spec{Name: "web", Replicas: replicas, Policy: c.Policy, Strategy: gen.RU(0), Limit: c.Limit, Template: 1, Paused: c.Paused}
+	sp := gen.Spec{Name: "web", Replicas: replicas, Policy: c.Policy, Strategy: gen.RU(0), Limit: c.Limit, Template: 1, Paused: c.Paused, SelBoth: c.SelBoth}
 	set := sp.Build()
 	st := world.NewState()
 	var names [3]string
@@ -344,6 +345,15 @@ func ownGrid(apis []string, policies []string, paused bool, podDepth int, thorou
 					if !emit(c) {
 						return
 					}
+					if a.Present && a.NoMatch {
+						// the same pod under a selector with labels and an expression: it passes the labels and fails the
+						// expression, which is no match all the same
+						d := c
+						d.SelBoth = true
+						if !emit(d) {
+							return
+						}
+					}
 					if podDepth < 2 {
 						continue
 					}
@@ -421,7 +431,7 @@ func ownCheck(prop string, apis, policies []string, paused bool, differential bo
 	if prop == "C10" {
 		depth = 2
 	}
-	rep.Rule = fmt.Sprintf("ownership snapshot enumeration: set web (r=3, %v, RU p=0) plus a second set with the same selector; (P) pods at 3 ordinals, up to %d of them replaced by any cell of owner{this,none,other UID,other kind,non-controller ref} x labels{match,no match} x name{S-i,S-x,other-i,S-i-j,S-0i (leading zero)} x terminating, also without the pod-name label, in another namespace, and re-created behind the cache (API copy with another UID), or absent; (R) full product of three revision slots (data T1=the set's template, T2, T3) each absent or owner{this,none,other UID,other kind,built-in StatefulSet of the same name} x labels{selector,upgrade marker,both}, x revisionHistoryLimit{0,1,10} x pod-label pinning (none / one live pod (also with a scale-in under way: replicas 2, the pod at ordinal 2 condemned) / one terminating pod at another revision / all pods at another revision) x status (counters zero / an exact census already, i.e. nothing to write) x revision numbering (descending with age / all equal / reversed, i.e. a rollback pending); x API copy of the set %v; paused=%v. One real reconcile per snapshot. %s Non-trivial = at least one write or an error.", policies, depth, apis, paused, ruleText)
+	rep.Rule = fmt.Sprintf("ownership snapshot enumeration: set web (r=3, %v, RU p=0) plus a second set with the same selector; (P) pods at 3 ordinals, up to %d of them replaced by any cell of owner{this,none,other UID,other kind,non-controller ref} x labels{match, no match, match on matchLabels but excluded by a selector expression} x name{S-i,S-x,other-i,S-i-j,S-0i (leading zero)} x terminating, also without the pod-name label, in another namespace, and re-created behind the cache (API copy with another UID), or absent; (R) full product of three revision slots (data T1=the set's template, T2, T3) each absent or owner{this,none,other UID,other kind,built-in StatefulSet of the same name} x labels{selector,upgrade marker,both}, x revisionHistoryLimit{0,1,10} x pod-label pinning (none / one live pod (also with a scale-in under way: replicas 2, the pod at ordinal 2 condemned) / one terminating pod at another revision / all pods at another revision) x status (counters zero / an exact census already, i.e. nothing to write) x revision numbering (descending with age / all equal / reversed, i.e. a rollback pending); x API copy of the set %v; paused=%v. One real reconcile per snapshot. %s Non-trivial = at least one write or an error.", policies, depth, apis, paused, ruleText)
 	rep.Assumptions = apiAssumptions
 	deadline := explore.Deadline(100*time.Second, 15*time.Minute)
 	judge := monitorOf(prop)
